@@ -448,13 +448,28 @@ def run_program(prog, mode, ctx, reads=None, steer=True):
             for (pos, vt, kind) in reads:
                 if pos == p:
                     B = it.worlds[1]
-                    k = vt % len(B.vars)
-                    was_pending = not B.vars[k].is_contigous
-                    try:
-                        do_read(B.vars[k], kind)
-                    except Exception:  # noqa: BLE001 - a read may be refused; it still must have no effect
-                        pass
-                    ctx.label("read:" + kind)
+                    if vt == "step":
+                        # any non-writing operation of the program vocabulary, executed in world B only, result discarded
+                        st_ = it.resolve(kind)
+                        if st_ is None:
+                            continue
+                        k = st_[1]
+                        was_pending = not B.vars[k].is_contigous
+                        try:
+                            r = it.execute(B, st_)
+                            if r[0] == "var":
+                                norm(r[1])          # look at the produced array as well
+                        except Exception:  # noqa: BLE001 - a read may be refused; it still must have no effect
+                            pass
+                        ctx.label("read:op:" + st_[0])
+                    else:
+                        k = vt % len(B.vars)
+                        was_pending = not B.vars[k].is_contigous
+                        try:
+                            do_read(B.vars[k], kind)
+                        except Exception:  # noqa: BLE001
+                            pass
+                        ctx.label("read:" + kind)
                     if was_pending:
                         ctx.label("read-on-pending")
                         landed += 1
